@@ -345,7 +345,8 @@ func (l *LightClientAttackEvidence) ValidateBasic() error {
 	}
 
 	// this check needs to be done before we can run validate basic
-	if l.ConflictingBlock.Header == nil {
+	// (SignedHeader is an embedded pointer: it must be checked before Header is reached through it)
+	if l.ConflictingBlock.SignedHeader == nil || l.ConflictingBlock.Header == nil {
 		return errors.New("conflicting block missing header")
 	}
 
